@@ -175,3 +175,19 @@ package stanza
 //@   ensures typeof(pk) == *IQ ==> pk.(*IQ) != nil
 //@   emits TokenRead
 //@ event StreamErrRead(pk Iface)
+
+// ---------------------------------------------------------------------------
+// Stream features helpers (used by the session negotiation contracts)
+//@ pred smOffered(sf) := sf.StreamManagement.XMLName.Space == "urn:xmpp:sm:3" && sf.StreamManagement.XMLName.Local == "sm"
+//@ pred tlsOffered(sf) := sf.StartTLS.XMLName.Space == "urn:ietf:params:xml:ns:xmpp-tls" && sf.StartTLS.XMLName.Local == "starttls"
+//@ func (*stanza.StreamFeatures).DoesStreamManagement(sf) (ok)
+//@   requires sf != nil
+//@   exactstrings
+//@   ensures [C11.feature.sm] ok == smOffered(sf)
+//@ func (*stanza.StreamFeatures).DoesStartTLS(sf) (feature, ok)
+//@   requires sf != nil
+//@   exactstrings
+//@   ensures [C04.feature.tls] ok == tlsOffered(sf)
+//@ func (*stanza.StreamSession).IsOptional(s) (opt)
+//@   requires s != nil
+//@   ensures [C03.feature.session] opt == (s.XMLName.Local != "session" || s.Optional != nil)
